@@ -380,6 +380,19 @@ example : let s := steps init [.create .interval 3000, .fire 0, .tick 10500, .fi
     s.timers.map (fun τ => (τ.res, τ.sentAt)) = [(.pending, [10500, 10500, 10500])] ∧
       s.target.mbox = [(0, 1), (0, 2), (0, 3)] := by decide
 
+/-- the target FAILS (its handler returns Err on a poison message) at 1 ms: no `post_stop` although the gate
+is armed, the supervisor is told at once; the interval makes one failing attempt at its next tick and
+ends, the `send_after` reports the error, a later `kill_after` finds nobody -/
+example : let s := mrun init [.hold, .create .interval 3000, .create .sendAfter 2000, .create .killAfter 5000,
+      .advFail 1000, .adv 2000, .adv 2000]
+    s.target.exit = some (.failed, 1000) ∧ s.target.closedAt = some 1000 ∧ s.target.stopping = none ∧
+      s.timers.map (fun τ => (τ.res, τ.sentAt)) = [(.ok, [3000]), (.err, [3000]), (.ok, [5000])] ∧
+      s.target.handled = [] := by decide
+/-- the poison cast right after moving the clock is handled before the time driver runs: the actor fails, the
+exit_after then finds nobody -/
+example : (mrun init [.create .exitAfter 1000, .advFail 1000]).target.exit = some (.failed, 1000) := by decide
+example : (Reason.failed).render = "<failed> poison" := rfl
+
 /-- send_interval(0): panicked at the first poll, nothing sent, the target untouched; a later abort changes nothing -/
 example : let s := mrun init [.create .interval 0, .adv 5000, .abort 0]
     s.timers.map (fun τ => (τ.res, τ.sentAt, τ.finAt)) = [(.panicked, [], some 0)] ∧ s.target.exit = none := by decide
